@@ -725,6 +725,64 @@ fn monitor_chain_twice(em: &mut Emit<'_>, chain: &[&Block], replay: &serde_json:
     }
 }
 
+/// An honest producer is handed an ordinary, correctly signed spend of an output that the block it is about to build must
+/// rebroadcast (created `gp + 1` blocks below it, still unspent). The output may be handled ONCE: the producer refuses the
+/// block, or drops one of the two, or the node refuses the block. Returns true when the history cannot go on.
+async fn edge_spend_attempt(em: &mut Emit<'_>, ks: &Keys, gp: u64, node: &mut Node, chain: &[&Block], rng: &mut Rng, replay: &serde_json::Value) -> bool {
+    let tip = chain[chain.len() - 1];
+    let n = tip.id + 1;
+    if n <= gp + 1 {
+        return false;
+    }
+    let mut view = spendable_view(ks, chain);
+    view.retain(|u| u.slip.block_id + gp + 1 == n && u.slip.slip_type != SlipType::Bound && u.slip.amount > 0);
+    view.sort_by_key(|u| (u.slip.amount, u.slip.tx_ordinal, u.slip.slip_index));
+    let Some(u) = view.last().cloned() else {
+        em.hist("edge-spend:no-unspent-output-leaves-the-window");
+        return false;
+    };
+    let ts = tip.timestamp + 2 * HEARTBEAT + 1;
+    let to = 2 + (n % 4);
+    let tx = mk_tx(&[u.slip.clone()], u.owner, &[(to, u.slip.amount)], vec![n as u8, 0xED], ts);
+    let gt = gt_tx(rng, tip, 1, ts);
+    let b = match create_on(node, tip.hash, ts, 1, vec![tx], Some(gt)).await {
+        Ok(b) => b,
+        Err(_) => {
+            em.hist("edge-spend:producer-refuses");
+            return false;
+        }
+    };
+    let spends = b.transactions.iter().filter(|t| t.transaction_type != TransactionType::ATR && t.from.iter().any(|s| s.amount > 0 && ident(s) == ident(&u.slip))).count();
+    let rebroadcasts = atr_txs(&b).iter().filter(|t| t.from.len() == 1 && ident(&t.from[0]) == ident(&u.slip)).count();
+    if spends + rebroadcasts <= 1 {
+        em.hist("edge-spend:producer-keeps-one-of-the-two");
+        return false;
+    }
+    let r = guarded_async(node.add_block(b.clone())).await;
+    let cls = match &r {
+        Ok(r) => add_result_class(r),
+        Err(_) => "panic",
+    };
+    em.hist(&format!("edge-spend:block-with-both:{}", cls));
+    let on_chain = node.tip().map(|t| t.1) == Some(b.hash);
+    if cls == "added_lc" || on_chain {
+        em.fail(
+            "C13/handled-twice/spent-and-rebroadcast-in-one-block",
+            &format!(
+                "block {} (produced by Block::create, add_block: {}) spends output {:?} of block {} in an ordinary transaction AND rebroadcasts it: its value reaches the spend's outputs and its owner gets it again as an ATR output",
+                b.id,
+                cls,
+                (u.slip.block_id, u.slip.tx_ordinal, u.slip.slip_index),
+                u.slip.block_id
+            ),
+            replay,
+        );
+        return true;
+    }
+    // (a producer that builds a block its own node refuses is C07's subject; the history goes on from the old tip)
+    cls == "panic"
+}
+
 /// how the harness' own bookkeeping classifies an old output
 fn disposition(gp: u64, chain: &[&Block], s: &Slip) -> &'static str {
     let n = s.block_id + gp + 1;
@@ -986,6 +1044,10 @@ pub async fn run_history(spec: &HSpec, emit: &mut dyn FnMut(&str, &str)) {
         // ---------------- ordinary step on the node's own tip
         let chain: Vec<Block> = ledger.chain_to(&tip.hash).into_iter().cloned().collect();
         let refs: Vec<&Block> = chain.iter().collect();
+        if i % 3 == 1 && edge_spend_attempt(&mut em, &ks, gp, &mut node, &refs, &mut Rng::new(spec.seed ^ i), &replay).await {
+            em.hist("history-ended:edge-spend");
+            return;
+        }
         let ts = tip.timestamp + 2 * HEARTBEAT + 1;
         let txs = plan_txs(&mut plan, &ks, &refs, ts, 0);
         // extra tickets raise the difficulty by one each (two tickets in a row); keep mining cheap
